@@ -839,8 +839,10 @@ REGRESS = [
     # smallest members of each part; run first so that a broken tree reports within a second
     (hdd_case, ('hdd', 2, ((0, 1),), None, ('forms', 'real'))),
     (hdd_case, ('hdd', 4, ((), (1, 2)), None, ('forms', 'real'))),
-    (enc_case, ('enc', 4, 4, 0b0111)),
-    (sdd_dac_case, ('sdddac', 4, 2, 'nrz', (1, 3))),
+    (enc_case, ('enc', 4, 2, 0b01)),          # one 4-ary symbol: bit order
+    (enc_case, ('enc', 2, 2, 0b01)),          # two binary symbols: position modulo M
+    (sdd_dac_case, ('sdddac', 2, 2, 'nrz', (1,))),
+    (sdd_dac_case, ('sdddac', 4, 2, 'rz', (1, 3))),
 ]
 
 
